@@ -4,7 +4,7 @@ from __future__ import annotations
 import ast
 from typing import Dict, List, Optional
 
-from .. import q
+from .. import pat, q
 from ..boolterm import head_name
 from ..core import AnchorError, Ctx, FuncInfo, dotted, guard_facts, norm, walk_no_nested
 from ..rewrite import single_bindings
@@ -46,8 +46,21 @@ def run(ctx: Ctx):
     fl = repo.func("tools.tools.find_last_qlassf")
     r = q.returns(fl)
     p = fl.params[0]
-    ok = len(r) == 1 and norm(r[0].value).replace(" ", "") in (f"{p}[-1][1]if{p}elseNone",)
-    ctx.check(ok, "MP-entrypoint", fl, "default entry point is the last definition", norm(r[0].value) if r else "", "find_last_qlassf does not return the last (name, qlassf) pair's function", fl.node)
+    al = pat.path_aliases(fl.node)
+    vals = []
+    for r_ in r:
+        v = r_.value
+        for a_ in ([v.body, v.orelse] if isinstance(v, ast.IfExp) else [v]):
+            if a_ is not None and not (isinstance(a_, ast.Constant) and a_.value is None):
+                vals.append(pat.tx(a_, al))
+    if len(vals) != 1:
+        ctx.undecided(fl.short, f"find_last_qlassf returns {vals}: not one non-None alternative")
+    else:
+        known = vals[0] in (f"{p}[-1][1]", f"{p}[0][1]", f"{p}[-1][0]", f"{p}[0]", f"{p}[-1]")
+        if not known:
+            ctx.undecided(fl.short, f"find_last_qlassf returns `{vals[0]}`: outside the tables")
+        else:
+            ctx.check(vals[0] == f"{p}[-1][1]", "MP-entrypoint", fl, "default entry point is the last definition", vals[0], f"find_last_qlassf returns `{vals[0]}`, not the function of the last (name, qlassf) pair", fl.node)
 
 
 def check_bool_expression(ctx: Ctx, fi: FuncInfo):
